@@ -237,10 +237,15 @@ def unpackedModel (m : ModelMeta) (s : ModelSections) : Bytes :=
   encodeMdlHeader (mdlHeaderOf m s) ++ contents s.all
 
 /-- every block well-formed and non-empty (a block run with blocks has content), fewer than 2^16
-blocks, sizes below 2 GiB -/
+blocks, packed size below 2 GiB, unpacked size below 4 GiB (32-bit header fields) -/
 def modelWf (s : ModelSections) : Bool :=
   s.all.all (fun b => b.wf && !b.data.isEmpty) &&
   decide (s.all.length < 65536) &&
-  decide (modelHeaderLen s + 128 + (encodeBlocks s.all).length < 2147483648)
+  decide (modelHeaderLen s + 128 + (encodeBlocks s.all).length < 2147483648) &&
+  decide (68 + (contents s.all).length < 4294967296)
+
+/-- `l[off .. off+len]` -/
+def slice (l : Bytes) (off len : Nat) : Bytes := (l.drop off).take len
+
 
 end Physis.Spec.SqPackData
